@@ -1290,6 +1290,7 @@ def check_C13(rep):
     array_probe_stages(rep, "c13", "C13", what, "iter,mutiter,partial")
     map_probe_stages(rep, "c13", "C13", what, "iter,mutiter,partial")
     deep_map_probe_stage(rep, "c13", "C13", what, "iter,mutiter")
+    deep_array_probe_stage(rep, "c13", "C13", what, "iter,mutiter")
     rep.exhaustive = False
 
 
@@ -1636,11 +1637,11 @@ def check_C20(rep):
 def deep_map_stage(rep, prefix, cfgname, what):
     """Maps with three slab levels (>= ~150 keys at slab 256): grow silently, then record a tail with persistence events."""
     quick = rep.tier == "quick"
-    depth, nkeys, num = (300, 330, 4) if quick else (600, 700, 40)
+    depth, nkeys, num = (240, 280, 3) if quick else (600, 700, 40)
     nm = prefix + "-deepmap"
     # large values: two or three entries per slab, so that three slab levels are reached with ~120 keys
     wf, wn = sim_histories(rep, "MC_MapWalk.tla", "MC_MapWalk.cfg",
-                           {"Keys": keyset(nkeys), "DigMode": '"spread"', "KSz": 5, "VSizes": "{60, 101}", "Persist": "TRUE", "AllowPop": "FALSE",
+                           {"Keys": keyset(nkeys), "DigMode": '"spread"', "KSz": 5, "VSizes": "{60, 101}", "Persist": "TRUE", "PersistEvery": 4, "AllowPop": "FALSE",
                             "GrowUntil": depth - 60, "ShrinkFrom": 1000000},
                            "MC_MapWalk %d keys, growth then churn with persistence events (3 slab levels)" % nkeys,
                            {"cfg": {"T": 256, "limit": 255}}, nm, num, depth, workers=4)
@@ -1662,6 +1663,22 @@ def deep_map_probe_stage(rep, prefix, cfgname, what, probes):
     base = len(rep.distinct)
     rep.distinct.update(range(base, base + wn))
     hist_stage(rep, nm, probe_cmd("map-run", probes, rep) + ["-tail", "2"], "map", "MapTrace.tla", "MapTrace_%s.cfg" % cfgname, wf, "tail", what)
+
+
+def deep_array_probe_stage(rep, prefix, cfgname, what, probes):
+    """Probes (iterators, ranges, mutable iteration, bulk build) at the end of growth walks that reach three slab levels (large
+    elements: two or three per slab, so that the root index slab splits with ~65 elements)."""
+    quick = rep.tier == "quick"
+    depth, num = (130, 3) if quick else (260, 40)
+    nm = prefix + "-deeparray-probes"
+    wf, wn = sim_histories(rep, "MC_Array.tla", "MC_Array_sim.cfg",
+                           {"T": 256, "Sizes": "{90, 117}", "WithReads": "FALSE", "AllowPop": "FALSE", "MaxElems": 100000,
+                            "GrowUntil": depth, "ShrinkFrom": 1000000},
+                           "MC_Array T=256 growth walks of %d operations over sizes {90,117} (3 slab levels), probes at the end" % depth,
+                           {"cfg": {"T": 256}}, nm, num, depth, workers=4)
+    base = len(rep.distinct)
+    rep.distinct.update(range(base, base + wn))
+    hist_stage(rep, nm, probe_cmd("array-run", probes, rep) + ["-tail", "2"], "array", "ArrayTrace.tla", "ArrayTrace_%s.cfg" % cfgname, wf, "tail", what)
 
 
 def check_C03(rep):
